@@ -11,6 +11,7 @@ from pymtl3.passes.backends.verilog.translation.behavioral.VBehavioralTranslator
     BehavioralRTLIRToVVisitorL3,
     VBehavioralTranslatorL3,
 )
+from pymtl3.passes.rtlir import BehavioralRTLIR as bir
 from pymtl3.passes.rtlir import RTLIRDataType as rdt
 from pymtl3.passes.rtlir import RTLIRType as rt
 
@@ -93,6 +94,13 @@ class YosysBehavioralRTLIRToVVisitorL3(
           obj = node.Type.get_object()
         except AttributeError:
           obj = None
+        # The object of an indexed list of constants is the one of element 0:
+        # only a chain of constant indices names the object that is read
+        v = node.value
+        while isinstance( v, ( bir.Attribute, bir.Index ) ):
+          if isinstance( v, bir.Index ) and getattr( v.idx, '_value', None ) is None:
+            obj = None
+          v = v.value
         if obj is None:
           raise VerilogTranslationError( s.blk, node,
             f"attribute ({node.attr}) of constant struct instance ({node.value}) is not supported!" )
